@@ -2,6 +2,7 @@
 
 #include <yaclib/fault/detail/wait_status.hpp>
 #include <yaclib/fault/inject.hpp>
+#include <yaclib/fault/verif.hpp>
 #include <yaclib/log.hpp>
 
 #include <condition_variable>
@@ -25,9 +26,11 @@ class ConditionVariable : private Impl {
 #endif
 
   void notify_one() noexcept {
+    YACLIB_VERIF_SYNC(kNotifyOne);
     YACLIB_INJECT_FAULT(Impl::notify_one());
   }
   void notify_all() noexcept {
+    YACLIB_VERIF_SYNC(kNotifyAll);
     YACLIB_INJECT_FAULT(Impl::notify_all());
   }
 
